@@ -19,6 +19,9 @@ const TEMPLATE_TOKENS: &[&str] = &[
 const PATTERNS: &[&str] = &[
     "a", "(a)", "(a)(b)", "(a)|(b)", "(a)?b", "(a)*", "(?P<n>a)", "(?P<n>a)|b", "((a)b)", "(a|)(b|)", "(a)(?P<n>b)?", "()", "(a)?", "(-)|(a)(b)?",
     "(?P<n>)a", "(\\w)(\\w)", "(\\w+)-(\\w+)", "(a)$", "^(a)", "(a)\\b", "(b)?$",
+    // a look-ahead assertion right behind the match (what follows the match
+    // must stay visible to the replacement pass)
+    "(a)\\B", "(a+)\\B", "(-)\\b", "(a)\\B|(b)",
 ];
 
 #[derive(Default)]
